@@ -29,6 +29,11 @@ def cases(quick):
                 out.append({'kind': kind, 'factory': factory, 'target': 'raise_exc', 'args': [e], 'kwargs': {}, 'what': 'exc:' + e})
             for a, k in shapes:
                 out.append({'kind': kind, 'factory': factory, 'target': 'echo_args', 'args': a, 'kwargs': k, 'what': 'shape:%d+%d' % (len(a), len(k))})
+            if kind == 'R' and not factory:
+                # the parent drains its data connection slowly while the child has long finished sending
+                for v in ('b208k1', 'b1m') if quick else ('b64k1', 'b208k1', 'b1m', 'b4m'):
+                    out.append({'kind': kind, 'factory': factory, 'target': 'ret_value', 'args': [v], 'kwargs': {}, 'what': 'slow-reader/value:' + v,
+                                'slow_reader': {'chunk': 16384, 'sleep': 0.01}})
             for run in (None, True, False):
                 out.append({'kind': kind, 'factory': factory, 'target': 'echo_args', 'args': ['r'], 'kwargs': {}, 'run': run, 'what': 'run:%s' % run})
                 out.append({'kind': kind, 'factory': factory, 'target': None, 'args': [], 'kwargs': {}, 'run': run, 'what': 'no-target/run:%s' % run})
@@ -65,6 +70,8 @@ def run(ctx):
             create['kwargs'] = kw
         if 'run' in c:
             create['run'] = c['run']
+        if c.get('slow_reader'):
+            create['slow_reader'] = c['slow_reader']
         sc = [create,
               {'op': 'call', 'var': 'w', 'method': 'is_alive', 'tag': 'alive0'},
               {'op': 'call', 'var': 'w', 'method': 'wait', 'args': [20], 'timeout': 30, 'tag': 'wait', 'stop_on_hang': False},
